@@ -11,4 +11,4 @@ CONSTANTS
   Splits <- SplitsSmall
   PrevOffsets = {0, 1}
   MaxCorrupt = 1
-INVARIANTS TablesAgree ValidImpliesNoValueCreated BasesAreValid SingleCorruptionRefused RefusedConservingIsStructural
+INVARIANTS TablesAgree ValidImpliesNoValueCreated BasesAreValid SingleCorruptionRefused RefusedConservingIsStructural ValidSplit FeeShiftIsNoValue RestImpliesNoValueCreated
